@@ -2220,3 +2220,121 @@ func c19Round3(c *core.Ctx) {
 		}
 	}
 }
+
+func init() {
+	extend("C14", "(R8) after a failed GC batch resolve the locks are re-checked against the freshly located region, not the one the scan started from.", func(c *core.Ctx) {
+		a := rule(c, "C14.R8")
+		fn := a.fn("tikv", "", "batchResolveLocksInOneRegion")
+		if fn == nil {
+			return
+		}
+		n := 0
+		for _, ci := range core.FindCalls(fn, core.CallsMethodNamed("Contains", "KeyLocation")) {
+			n++
+			ds := c.P.Prov().Desc(ci.Common().Args[0])
+			okk := len(ds) > 0
+			for _, d := range ds {
+				if !strings.HasPrefix(d, "call((*internal/locate.RegionCache).LocateKey)#0") {
+					okk = false
+				}
+			}
+			a.check(okk, fname(fn)+" re-checks the locks against the fresh location", ci, strings.Join(ds, "|"), "the last lock is tested against "+strings.Join(ds, "|")+" instead of the location just returned by LocateKey: after a split the locks beyond the new region are sent to it, fail with a region error, and the loop never leaves (or the tail of the range is skipped)")
+		}
+		a.checkAt(n == 1, fname(fn)+" containment test", a.fnPos(fn), "", "not found")
+	})
+}
+
+func init() {
+	extend("C07", "(R7) the mem-buffer batch get returns every buffered entry, tombstones included (the overlay needs them to hide snapshot keys); (R8) the ART iterator tests every leaf it skips against the end leaf; (R9) an ART iterator whose end bound lies outside all buffered keys is invalid, not unbounded.", func(c *core.Ctx) {
+		p := c.P
+		{
+			a := rule(c, "C07.R7")
+			for _, recv := range []string{"artDBWithContext", "rbtDBWithContext"} {
+				fn := a.fn(pkgUnion, recv, "BatchGet")
+				if fn == nil {
+					continue
+				}
+				n := 0
+				for _, ci := range core.FindCalls(fn, core.CallsMethodNamed("Get", "")) {
+					in := ci.(ssa.Instruction)
+					n++
+					okk, w, hit := condMust(c, fn, in, func(x ssa.Instruction) bool {
+						if x == in {
+							return true
+						}
+						_, isRet := x.(*ssa.Return)
+						return isRet
+					}, func(x ssa.Instruction) bool { _, ok := x.(*ssa.MapUpdate); return ok }, []string{"F:(call(*Get)#1* == nil)"})
+					if okk {
+						a.ok(fname(fn)+" returns every entry found in the buffer", in, "")
+					} else {
+						a.viol(fname(fn)+" returns every entry found in the buffer", hit, "an entry found in the buffer (e.g. a tombstone) is left out of the result: the overlay treats the key as unbuffered and reads the snapshot, so a key deleted in the transaction comes back with its committed value: "+a.w(w))
+					}
+				}
+				a.checkAt(n == 1, fname(fn)+" buffer lookup", a.fnPos(fn), "", "lookup not found")
+			}
+		}
+		{
+			a := rule(c, "C07.R8")
+			fn := a.fn("internal/unionstore/art", "Iterator", "Next")
+			if fn != nil {
+				isAdvance := func(x ssa.Instruction) bool {
+					ci, ok := x.(ssa.CallInstruction)
+					return ok && (calleeName(ci) == "next" || calleeName(ci) == "prev")
+				}
+				isEndTest := func(x ssa.Instruction) bool {
+					b, ok := x.(*ssa.BinOp)
+					if !ok || (b.Op != token.EQL && b.Op != token.NEQ) {
+						return false
+					}
+					d := strings.Join(p.Prov().Desc(b.X), "|") + " " + strings.Join(p.Prov().Desc(b.Y), "|")
+					return strings.Contains(d, "fld(Iterator.endAddr,")
+				}
+				n := 0
+				for _, ci := range core.FindCalls(fn, core.CallsMethodNamed("setCurrLeaf", "")) {
+					in := ci.(ssa.Instruction)
+					n++
+					okk, w, hit := condMust(c, fn, in, isAdvance, isEndTest, nil)
+					if okk {
+						a.ok(fname(fn)+" tests a skipped leaf against the end leaf", in, "")
+					} else {
+						a.viol(fname(fn)+" tests a skipped leaf against the end leaf", hit, "a leaf can be skipped (flags only / discarded) without being compared with the end leaf: when the end leaf itself is such an entry the scan runs past its bound: "+a.w(w))
+					}
+				}
+				a.checkAt(n == 1, fname(fn)+" leaf advance", a.fnPos(fn), "", "setCurrLeaf not found")
+			}
+		}
+		{
+			a := rule(c, "C07.R9")
+			fn := a.fn("internal/unionstore/art", "Iterator", "init")
+			if fn != nil {
+				n := 0
+				core.Instrs(fn, func(in ssa.Instruction) {
+					st, ok := in.(*ssa.Store)
+					if !ok || !strings.Contains(strings.Join(p.Prov().Desc(st.Addr), "|"), "fld(Iterator.endAddr,") {
+						return
+					}
+					if !strings.Contains(strings.Join(p.Prov().Desc(st.Val), "|"), "fld(artNode.addr,call(") {
+						return // the unbounded case
+					}
+					n++
+					okk, w, hit := condMust(c, fn, in, func(x ssa.Instruction) bool { _, isRet := x.(*ssa.Return); return isRet },
+						func(x ssa.Instruction) bool {
+							s2, ok := x.(*ssa.Store)
+							if !ok || !strings.Contains(strings.Join(p.Prov().Desc(s2.Addr), "|"), "fld(Iterator.valid,") {
+								return false
+							}
+							cst, ok := asConst(s2.Val)
+							return ok && cst.Value != nil && cst.Value.String() == "false"
+						}, []string{"T:(call((*internal/unionstore/art.baseIter).compare)#0* == const(0))", "F:(const(0) == len(fld(baseIter.idxes,*)))"})
+					if okk {
+						a.ok(fname(fn)+" is invalid when no buffered key lies inside the end bound", in, "")
+					} else {
+						a.viol(fname(fn)+" is invalid when no buffered key lies inside the end bound", hit, "when the end-bound helper runs off the tree (no buffered key inside the bound) the end address is null, which Next reads as 'unbounded': the iterator must be invalidated on that path: "+a.w(w))
+					}
+				})
+				a.checkAt(n == 2, fname(fn)+" bounded end address", a.fnPos(fn), fmt.Sprint(n), "expected the forward and the reverse assignment")
+			}
+		}
+	})
+}
